@@ -233,6 +233,9 @@ def blockBytes (b : ReportBlock) : Bytes :=
 
 def itemBytes (i : SdesItem) : Bytes := i.ty :: u8 (i.text.length % 256) :: i.text
 
+/-- `item.text.len() > u8::MAX` somewhere in the packet (the marshal error added by the range fix) -/
+def sdesTextTooLong (cs : List SdesChunk) : Bool := cs.any fun c => c.items.any fun i => i.text.length > 255
+
 /-- `build_sdes_body` appends chunk after chunk to ONE buffer and pads on the buffer length -/
 def sdesBody (acc : Bytes) : List SdesChunk → Bytes
   | [] => acc
@@ -278,11 +281,19 @@ def writeRtcp (fmt pt : Nat) (body : Bytes) : Bytes :=
 /-- one arm of `marshal_rtcp_packets` -/
 def marshalOne : Rtcp → Except Err Bytes
   | .sr s m l t p o bl =>
-    .ok (writeRtcp (bl.length % 256) c15RtcpSr
+    if bl.length > c15RtcpMaxCount then .error (.rtcp "too many report blocks")
+    else .ok (writeRtcp (bl.length % 256) c15RtcpSr
       (be32 s ++ be32 m ++ be32 l ++ be32 t ++ be32 p ++ be32 o ++ bl.flatMap blockBytes))
-  | .rr s bl => .ok (writeRtcp (bl.length % 256) c15RtcpRr (be32 s ++ bl.flatMap blockBytes))
-  | .sdes cs => .ok (writeRtcp (cs.length % 256) c15RtcpSdes (sdesBody [] cs))
-  | .bye ss r => .ok (writeRtcp (ss.length % 256) c15RtcpBye (byeBody ss r))
+  | .rr s bl =>
+    if bl.length > c15RtcpMaxCount then .error (.rtcp "too many report blocks")
+    else .ok (writeRtcp (bl.length % 256) c15RtcpRr (be32 s ++ bl.flatMap blockBytes))
+  | .sdes cs =>
+    if cs.length > c15RtcpMaxCount then .error (.rtcp "too many SDES chunks")
+    else if sdesTextTooLong cs then .error (.rtcp "SDES item text too long")
+    else .ok (writeRtcp (cs.length % 256) c15RtcpSdes (sdesBody [] cs))
+  | .bye ss r =>
+    if ss.length > c15RtcpMaxCount then .error (.rtcp "too many BYE sources")
+    else .ok (writeRtcp (ss.length % 256) c15RtcpBye (byeBody ss r))
   | .pli s m => .ok (writeRtcp c15FmtPli c15RtcpPsfb (be32 s ++ be32 m))
   | .fir s rq => .ok (writeRtcp c15FmtFir c15RtcpPsfb (firBody s rq))
   | .nack s m lost =>
